@@ -179,6 +179,11 @@ ShiftBox(P, l, b) ==
             !.lev[l].files = [f \in DOMAIN @ |-> [j \in DOMAIN @[f] |->
                                  IF @[f][j].idx = b THEN [@[f][j] EXCEPT !.idx = 90 + b] ELSE @[f][j]]]]
 
+\* the same boxes listed in another ORDER in the headers (entries 1 and 2 of level l exchanged; the FABs stay where they are)
+SwapHeader(P, l) ==
+  LET sw(q) == [i \in DOMAIN q |-> IF i = 1 THEN q[2] ELSE IF i = 2 THEN q[1] ELSE q[i]]
+  IN [P EXCEPT !.lev[l].idx = sw(@), !.lev[l].fod = sw(@), !.lev[l].mm = sw(@)]
+
 LaysFor(nl, nbs) == {lays \in [1..nl -> UNION {Layouts(n, MaxFile) : n \in 1..MaxBox}] :
                         \A l \in 1..nl : Len(lays[l].file) = nbs[l]}
 
@@ -187,10 +192,13 @@ Init ==
        /\ \A l \in 2..nl : nbs[l] <= MaxBox2
        /\ cells = [l \in 1..nl |-> CellsOf(nbs[l])]
        /\ \E lays1 \in LaysFor(nl, nbs) : in1 = SrcPlt("A", F1, cells, lays1)
-       /\ rel \in {"same", "fewer_boxes", "shifted", "fewer_levels"}
+       /\ rel \in {"same", "fewer_boxes", "shifted", "fewer_levels", "reordered"}
        /\ CASE rel = "same" -> \E lays2 \in LaysFor(nl, nbs) : in2 = SrcPlt("B", F2, cells, lays2)
             [] rel = "shifted" -> \E lays2 \in LaysFor(nl, nbs) :
                                     in2 = ShiftBox(SrcPlt("B", F2, cells, lays2), 1, nbs[1])
+            \* the second input lists the boxes of its first level in another order: box k of one is not box k of the other
+            [] rel = "reordered" -> /\ nbs[1] >= 2
+                                    /\ \E lays2 \in LaysFor(nl, nbs) : in2 = SwapHeader(SrcPlt("B", F2, cells, lays2), 1)
             [] rel = "fewer_boxes" ->
                  /\ nbs[1] >= 2
                  /\ LET nbs2 == [nbs EXCEPT ![1] = @ - 1] IN
